@@ -22,7 +22,7 @@ def drive(chk, gets, walks, walklen, maxstates=0):
                      VERIF_MAXSTATES=str(maxstates or 3 * max(1, g["distinct"]))), timeout=1500)
     resf = os.path.join(wd, "c08_result.json")
     if not os.path.exists(resf):
-        raise vlib.MachineryError("cache driver produced no result:\n" + t["out"][-3000:])
+        raise vlib.driver_failed("cache driver produced no result", t["out"])
     res = json.load(open(resf))
     lines = open(os.path.join(wd, "c08_trace.ndjson")).read().splitlines()
     return res, lines
@@ -71,7 +71,7 @@ def run(chk):
         if v:
             chk.violation(v["sig"], v["desc"], dict(kind="panic"))
             return
-        raise vlib.MachineryError("C08 client-level driver failed:\n" + t2["out"][-3000:])
+        raise vlib.driver_failed("C08 client-level driver failed", t2["out"])
     res2 = json.load(open(rf2))
     for v in res2["violations"] or []:
         if v["sig"].startswith("cached-"):
